@@ -65,7 +65,7 @@ CHECKS = {
             'DESIGN.md 3/C15'),
     'C05': ('model_checking',
             'explicit-state enumeration of the cell tree on the real codec, reference-codec conformance on every edge',
-            'Every (face, segment, S) of resolutions 0..7 (quick) / 0..8 (thorough) and digit-pattern seeds for every deeper '
+            'Every (face, segment, S) of resolutions 0..7 (quick) / 0..9 (thorough) and digit-pattern seeds for every deeper '
             'resolution up to 30 are encoded and decoded by the implementation and by an independent reference codec; range, '
             'injectivity, level counts and rejection of out-of-range S are checked in every state. Exhaustive below the bound, '
             'pattern-directed above it.',
@@ -110,7 +110,7 @@ CHECKS = {
             'DESIGN.md 2/E5, 3/C17'),
     'C18': ('model_checking',
             'exhaustive enumeration of (orientation, level, index) through the real index->anchor->pentagon->IJ->index chain',
-            'All indices of all 6 orientations at levels 1..7 (quick) / 1..9 (thorough) and digit-window seeds at levels up to 28: round trip, pairwise distinct cells, equal areas summing to the triangle, prefix coherence.',
+            'All indices of all 6 orientations at levels 1..7 (quick) / 1..10 (thorough) and digit-window seeds at levels up to 28: round trip, pairwise distinct cells, equal areas summing to the triangle, prefix coherence.',
             'Above the exhaustive bound only windowed digit patterns; non-overlap of pentagons is certified by C03 rather than here.',
             'DESIGN.md 3/C18'),
     'C19': ('exploration',
